@@ -90,6 +90,7 @@ Proof.
   hseq Kany. { apply h_put_stream. apply (SP_upd SP SPc). exact Hst. }
   hseq Kany. { apply h_wr_dst_any; [lia|]. rewrite lenZ_be_bytes. lia. }
   hseq Kany. { destruct (2147483648 <=? wstart rb); [hexit|hkeep]. }
+  hseq Kany. { unfold log_gcm_iv. apply h_sb0. apply sb_log_iv. }
   hseq Kany.
   { destruct (negb (Z.land (s_rtcp_serv st) sec_serv_conf_c =? 0)).
     - eapply h_bind; [apply h_rd_src; lia|intros aad]. apply h_pure; intros _.
@@ -474,6 +475,7 @@ Proof.
   hseq (Kab n). { apply h_put_stream. apply (SP_upd SP SPc). exact Hst. }
   hseq (Kab n). { apply h_wr_above; rewrite ?lenZ_be_bytes; lia. }
   hseq (Kab n). { destruct (2147483648 <=? wstart rb); [hexit|hkeep]. }
+  hseq (Kab n). { unfold log_gcm_iv. apply h_sb0. apply sb_log_iv. }
   hseq (Kab n).
   { destruct (negb (Z.land (s_rtcp_serv st) sec_serv_conf_c =? 0)).
     - eapply h_bind; [apply h_rd_src; lia|intros aad]. apply h_pure; intros _.
